@@ -35,7 +35,7 @@ def gen_loop_history(rng: core.Rng, iters: int, query: str) -> List[list]:
         if query == "registry":
             h.append(["QueryG", rng.choice([0, 1, 6])])
         elif query == "eql":
-            h.append(["QueryE", rng.choice([0, 1, 6])])
+            h.append(["QueryE", rng.choice([0, 1, 6])] + rng.choice([[], ["attr"], ["setof"]]))
         elif query == "declare":
             h.append(["Declare", rng.choice([0, 1, 6])])   # declared while the instances exist, never evaluated
         for o in ids:
@@ -69,7 +69,7 @@ def check_loop(p: dict, r: dict):
     n_rel = len({(a, f, b) for a, f, b in p["rels"] if p["classes"][a] != 6 and p["classes"][b] != 6})
     for it, row in enumerate(r["rows"]):
         k = it + 1
-        exprs = 0 if mode in ("none", "registry") else 3 * k
+        exprs = 0 if mode in ("none", "registry") else (4 if mode == "eql_attr" else 3) * k
         if mode == "eql_domain":
             alive, sizes = k * n_a, [k * n_a, k * n_a, k * n_a, k * n_rel, k * n_rel]
         else:
@@ -90,7 +90,7 @@ def run(tier: str, seed: int, replay=None) -> int:
     rep.rule = ("corpus + seeded random histories of C13's machine weighted towards EQL queries and drops + create/relate/query/"
                 "drop-all/sweep loops as histories (12 rounds quick, 60 thorough; none / registry / EQL query / variable declared but never evaluated) + "
                 "C13's 'decl' profile (declare, change the world, evaluate later) + descriptor loops over "
-                "Person/Company pairs (30 rounds quick, 200 thorough; none / registry / eql / eql with explicit domain / declared-only query); "
+                "Person/Company pairs (30 rounds quick, 200 thorough; none / registry / eql / eql selecting only an attribute of the variable / eql with explicit domain / declared-only query); "
                 "non-trivial = >= 4 ops of >= 3 kinds; every loop")
     ok_spec, log = core.coq_make(["Base/Sx.vo", "Onto/RegistrySpec.vo", "Onto/RegistrySpecRun.vo"])
     rep.oblige("build:spec", ok_spec, "" if ok_spec else core.first_error(log))
@@ -114,7 +114,7 @@ def run(tier: str, seed: int, replay=None) -> int:
         hists += [c13.gen_history(r1, "decl", 4, 16 if tier == "quick" else 28) for _ in range(250 * n)]
         hists += [gen_loop_history(r2, it, q) for q in ("none", "registry", "eql", "declare") for _ in range(12 if q != "declare" else 8)]
         its = 30 if tier == "quick" else 200
-        loops = [gen_loop(r3, its, m) for m in ("none", "registry", "eql", "eql_domain", "declare") for _ in range(3 if tier == "quick" else 6)]
+        loops = [gen_loop(r3, its, m) for m in ("none", "registry", "eql", "eql_attr", "eql_domain", "declare") for _ in range(3 if tier == "quick" else 6)]
     if not model_ok:
         rep.note("model not available; comparing the implementation with the Spec only (search for a failing input)")
     results, codes, hd, inst = c13.decide(rep, PROP, hists, model_ok, "lifetime", ACCEPT)
